@@ -92,6 +92,10 @@ static int hint_next = -1;        /* mc_handoff: fiber to be preferred at the ne
 
 /* per-execution decision record */
 static int choice[MAXD], nopt[MAXD];
+/* states reached by the decisions of the current execution beyond the replayed prefix, and who moved:
+   used to tell a non-progress cycle (the execution came back to a state of its OWN path) from an
+   ordinary revisit of a state reached by an earlier execution */
+static uint64_t path_h0[MAXD], path_h1[MAXD]; static signed char path_who[MAXD];
 static unsigned char pt_nthr[MAXD], pt_pre[MAXD], pt_tick[MAXD], pt_tickcost[MAXD];
 static int depth, prefix_len;
 static int usedP, usedE;
@@ -981,7 +985,31 @@ static int run_execution (void) {
 		if (depth >= opt_horizon) { n_horizon++; result = 3; snprintf (viol, sizeof viol, "horizon: execution exceeded %d scheduling decisions (livelock?)", opt_horizon); have_viol = 1; result = 1; break; }
 		if (!opt_nohash && depth >= prefix_len) {
 			uint64_t h[2]; state_hash (last, h);
-			if (vt_visit (h, usedE, usedP)) { n_pruned++; result = 2; break; }
+			path_h0[depth - 1] = h[0]; path_h1[depth - 1] = h[1]; path_who[depth - 1] = (o == OPT_TICK || (o >= OPT_FAULT && o < OPT_QUIESCE + 1000)) ? -1 : (signed char)last;
+			if (vt_visit (h, usedE, usedP)) {
+				/* Non-progress cycle: the state equals one this very execution was in before, every step
+				   since then was a thread step, every thread that can run at all took part (so a fair
+				   scheduler can repeat the cycle for ever) and no clock tick is pending that could break
+				   it: the threads involved never return.  (Loops that go through nsync_spin_delay_ are
+				   handled by the park rule; this catches retry loops that contain no yield.) */
+				int lo = depth - 2 - 4096; if (lo < prefix_len) lo = prefix_len;
+				for (int d = depth - 2; d >= lo; d--) if (path_h0[d] == h[0] && path_h1[d] == h[1]) {
+					unsigned ran = 0, en = 0; int pure = 1;
+					for (int k = d + 1; k < depth; k++) { if (path_who[k] < 0) pure = 0; else ran |= 1u << path_who[k]; }
+					for (int i = 0; i < nfib; i++) if (enabled (i)) en |= 1u << i;
+					if (pure && ran != 0 && (en & ~ran) == 0 && next_instant () == MC_NEVER) {
+						char b[120]; int n = 0;
+						for (int i = 0; i < nfib && n < 100; i++) if (ran & (1u << i)) n += snprintf (b + n, sizeof b - n, " T%d", i);
+						cur = -1;
+						violation (NULL, "livelock: non-progress cycle:%s repeat the same steps for ever (the state recurs, no other thread can run, no clock tick is pending)", b);
+						for (int i = 0; i < nfib; i++) if ((ran & (1u << i)) && F[i].ncs > 0) { viol_pc[2] = F[i].cs[F[i].ncs - 1 < 47 ? F[i].ncs - 1 : 47]; break; }
+						result = 1;
+					}
+					break;
+				}
+				if (result == 1) break;
+				n_pruned++; result = 2; break;
+			}
 		}
 	}
 	if (depth > max_depth) max_depth = depth;
